@@ -297,7 +297,8 @@ impl std::str::FromStr for Relation {
         let mut tokens = tokens.into_iter().peekable();
 
         fn eat_whitespace(tokens: &mut Peekable<impl Iterator<Item = (SyntaxKind, String)>>) {
-            while let Some((WHITESPACE, _)) = tokens.peek() {
+            // relations may be wrapped over several lines
+            while let Some((WHITESPACE | NEWLINE, _)) = tokens.peek() {
                 tokens.next();
             }
         }
@@ -366,7 +367,7 @@ impl std::str::FromStr for Relation {
             loop {
                 match tokens.next() {
                     Some((IDENT, s)) => archs.push(s),
-                    Some((WHITESPACE, _)) => {}
+                    Some((WHITESPACE | NEWLINE, _)) => {}
                     Some((R_BRACKET, _)) => break,
                     _ => return Err("Expected architecture name".to_string()),
                 }
